@@ -83,7 +83,7 @@ class MemMinionIfcFL( Interface ):
 
       connect_pairs(
         other,   m.left,
-        m.right, other,
+        m.right, s,
       )
       parent.MemIfcCL2FL_count += 1
       return True
